@@ -29,7 +29,8 @@ ASSUME = [
     "one MTU per run for all nodes; clocks have offsets/skew/small forward steps but never run backwards",
 ]
 
-MTUS = [512, 513, 576, 1000, 1280, 1499, 1500]
+MTUS = [512, 513, 576, 1000, 1280, 1499, 1500,
+        1089, 1090, 1093, 1095, 1096, 1097]      # around MAX_PAYLOAD_SIZE == 1024 (+6): the fragment-size rule switches
 
 
 def limits(mtu):
@@ -83,7 +84,7 @@ def swarm_cfg(rng, nclients=None, entry=None, long_latency=True):
         "jitter": rng.choice([0.0, 0.0, 0.002, 0.02, 0.08, 0.2]),
         "reactor_lag": rng.choice([0.0, 0.0, 0.001, 0.01]),
         "instr_cost": rng.choice([1e-6, 1e-6, 5e-6, 2e-5]),
-        "server": {"interval": interval,
+        "server": {"interval": interval, "configure_after_construction": rng.random() < 0.3,
                    "offset": 1.7e9 + rng.randrange(0, 10 ** 6), "rate": 1.0 + rng.choice([0, 0, 1e-3, -1e-3])},
         "clients": [{"dt": rng.choice(dts),
                      "offset": 1.7e9 + rng.randrange(-10 ** 5, 10 ** 6),
@@ -259,7 +260,13 @@ def gen_traffic(rng, i, tier, *, nclients=None, retries=(0, 1, -1), n_msgs=None,
     mtu = cfg["mtu"]
     plan = []
     for c in range(n):
-        plan.append({"op": "connect", "c": c, "t": 0.05 * c + rng.random() * 0.2})
+        op = {"op": "connect", "c": c, "t": 0.05 * c + rng.random() * 0.2}
+        if rng.random() < 0.25:
+            # the application sends from inside its connect callback: the messages share a datagram with the
+            # challenge response, which the server still handles on its handshake path
+            op["on_connect"] = [{"len": rng.choice([0, 9, 40, 700, limits(mtu)["cap1"], 3000]), "retry": rng.choice(retries),
+                                 "cb": rng.random() < cb_p, "api": "send", "kind": 0} for _ in range(rng.choice([1, 2, 3]))]
+        plan.append(op)
     t_start = 0.8 + 4 * cfg["latency"] + 2 * cfg["jitter"] + 3 * max(cl["dt"] for cl in cfg["clients"])
     t_fault0 = t_start + rng.random() * 1.0
     t_fault1 = t_fault0 + rng.choice([1.0, 2.0, 4.0, 8.0])
